@@ -16,7 +16,7 @@ EXPLANATION = (
     'and the same body; R15.c both APIs return a shell-reported error unmodified; R15.d decoders propagate every failure as an '
     'error value; R15.e the only headers written on the path are the shell\'s (a side-effecting set_body is undone before they '
     'are appended, and headers are snapshotted before the body is taken); R15.f decode_body produces a String only behind the success edge of '
-    'the charset-label lookup; R15.g body_json parses the raw body bytes (JSON is UTF-8 whatever the Content-Type says) and never goes through the charset decoder. R15.i where a shell HttpResponse becomes a response object, set_body takes the `body` field of that response itself (moved, Into / From / from_bytes at most), never a reader with a declared length or a re-encoding. Decoder conformance (encoding_rs, serde_json) is trusted. R15.a also lists std methods that panic on argument values (String::truncate, split_at, Vec::remove, ...).')
+    'the charset-label lookup; R15.g body_json parses the raw body bytes (JSON is UTF-8 whatever the Content-Type says) and never goes through the charset decoder. R15.j every expectation decodes the body of the response it was given (no with_body / set_body before the read). R15.i where a shell HttpResponse becomes a response object, set_body takes the `body` field of that response itself (moved, Into / From / from_bytes at most), never a reader with a declared length or a re-encoding. Decoder conformance (encoding_rs, serde_json) is trusted. R15.a also lists std methods that panic on argument values (String::truncate, split_at, Vec::remove, ...).')
 
 HT = 'http_types_red_badger_temporary_fork'
 SAFE_STATUS_T = HT + '::status_code::StatusCode'
@@ -78,6 +78,7 @@ def check(ctx, rep):
     rep.rule('R15.b', 'Response::new returns HttpError::Http exactly on the client/server-error edges and otherwise copies status, headers, body', floor=6)
     rep.rule('R15.c', 'a shell-reported HttpResult::Err reaches the app unmodified in both APIs', floor=2)
     rep.rule('R15.d', 'decoders turn every failure into an error value', floor=3)
+    rep.rule('R15.j', 'every ResponseExpectation::decode reads the body of the response it was given (no body substituted first)', floor=2)
     rep.rule('R15.i', 'the body set on the response object is the shell response\'s body field itself, whole', floor=1)
     rep.rule('R15.e', 'only the shell\'s headers are written on the shell-input path', floor=2)
     cfgs = ['default'] + (['allfeat'] if ctx.has('allfeat') else [])
@@ -122,6 +123,7 @@ def check(ctx, rep):
         check_header_writes(rep, http, cfg)
         check_charset_consulted(rep, http, cfg)
         check_body_whole(rep, http, cfg)
+        check_expectations_read_the_response(rep, http, cfg)
         check_json_from_bytes(rep, http, cfg)
         check_charset_from_mime(rep, http, cfg)
     controls(ctx, rep)
@@ -435,6 +437,33 @@ def check_charset_from_mime(rep, http, cfg):
         rep.expect('R15.h', ok, key, 'decode_body gets the charset parameter of the parsed media type',
                    '%s no longer takes the charset from Mime::param of the parsed Content-Type (param calls %d, hand scanning %s): quoted or '
                    'unusually placed charset parameters are mis-read' % (r.path, len(params), sorted(set(x for _, x in scans))), site=key + '@' + cfg)
+
+
+def check_expectations_read_the_response(rep, http, cfg):
+    """R15.j: an expectation decodes the body the response carries: in every ResponseExpectation::decode the response whose body is read
+    (body_json / body_string / body_bytes / take_body) is the parameter itself — never one whose body was replaced first (an empty body
+    turned into `null` decodes to a success the shell never sent)"""
+    n = 0
+    for f in http.built:
+        if f.kind != 'AssocFn' or f.name != 'decode' or not path_matches(f.assoc.get('trait'), 'crux_http::expect::ResponseExpectation') or f.j.get('exp'):
+            continue
+        reads = [(bb, t) for bb, t in f.calls() if re.search(r'::response::response::Response::(body_json|body_string|body_bytes|take_body)$', norm(t.get('callee') or ''))]
+        if not reads:
+            continue
+        n += 1
+        bad = []
+        for bb, t in reads:
+            src = origins(f, t['args'][0])
+            if not src or not all(o.kind == 'arg' and o.n == 2 for o in src):
+                bad.append((last_seg(t['callee']), [(o.kind, last_seg(o.term.get('callee') or '') if o.kind == 'call' else '') for o in src]))
+        subst = [f.where(bb) for bb, t in f.calls() if re.search(r'::response::response::Response::(with_body|set_body|replace_body|swap_body)$', norm(t.get('callee') or ''))
+                 and any(f.dominates(bb, rb) and bb != rb for rb, _ in reads)]
+        key = '%s|reads-the-response' % f.kpath
+        rep.expect('R15.j', not bad and not subst, key, 'the body read is the body of the response given to decode', '%s decodes a body other than the one the '
+                   'response carries (%s%s): the app can get a success built from bytes the shell never sent' % (f.path, bad, (' after ' + subst[0]) if subst else ''),
+                   site=key + '@' + cfg)
+    if n < 2:
+        rep.bad('R15.j', 'sites@' + cfg, 'expected the string and JSON expectations (decode reading the response body), found %d' % n)
 
 
 def check_body_whole(rep, http, cfg):
